@@ -189,6 +189,7 @@ func newRepoWorld(row *repoRow) (*repoWorld, error) {
 	}
 	r.Storer.SetReference(plumbing.NewHashReference("refs/heads/master", rw.commitH))
 	r.Storer.SetReference(plumbing.NewHashReference("refs/heads/target", rw.commitT))
+	r.Storer.SetReference(plumbing.NewHashReference("refs/heads/twin", rw.commitH))
 	r.Storer.SetReference(plumbing.NewSymbolicReference(plumbing.HEAD, "refs/heads/master"))
 	idx := &index.Index{Version: 2}
 	for _, p := range rw.paths {
@@ -223,6 +224,7 @@ type repoObs struct {
 	HeadTree string // "H" | "T" | "I" | "other"
 	Master   string // tree symbol of refs/heads/master
 	Target   string
+	Feature  string // tree symbol of refs/heads/feature (created by checkout -b), "none" if absent
 	Idx      map[string]string
 	Skip     map[string]bool
 	Wt       map[string]string
@@ -294,6 +296,10 @@ func (rw *repoWorld) observe() *repoObs {
 		hc = hr.Hash()
 	}
 	o.HeadTree = rw.treeSym(hc)
+	o.Feature = "none"
+	if f, err := r.Storer.Reference("refs/heads/feature"); err == nil {
+		o.Feature = rw.treeSym(f.Hash())
+	}
 	if m, err := r.Storer.Reference("refs/heads/master"); err == nil {
 		o.Master = rw.treeSym(m.Hash())
 	} else {
@@ -377,8 +383,14 @@ func (rw *repoWorld) run(row *repoRow) error {
 		return w.Reset(&git.ResetOptions{Commit: rw.commitT, Mode: git.KeepReset})
 	case "checkout-force":
 		return w.Checkout(&git.CheckoutOptions{Branch: "refs/heads/target", Force: true})
+	case "checkout-force-create":
+		return w.Checkout(&git.CheckoutOptions{Hash: rw.commitT, Branch: "refs/heads/feature", Create: true, Force: true})
 	case "checkout":
 		return w.Checkout(&git.CheckoutOptions{Branch: "refs/heads/target"})
+	case "checkout-twin":
+		return w.Checkout(&git.CheckoutOptions{Branch: "refs/heads/twin"})
+	case "checkout-create":
+		return w.Checkout(&git.CheckoutOptions{Branch: "refs/heads/feature", Create: true})
 	case "sparse":
 		var dirs []string
 		for _, d := range strings.Split(row.Arg[0], "+") {
@@ -480,12 +492,12 @@ func in(set []string, v string) bool {
 func multi(row *repoRow) string { return "" }
 
 var repoOpsOf = map[string][]string{
-	"C25": {"reset-hard", "checkout-force"},
-	"C30": {"checkout", "reset-merge", "reset-keep"},
+	"C25": {"reset-hard", "checkout-force", "checkout-force-create"},
+	"C30": {"checkout", "checkout-twin", "checkout-create", "reset-merge", "reset-keep"},
 	"C28": {"add", "add-all", "remove", "move", "clean", "commit"},
 	"C27": {"status"},
 	"C32": {"sparse"},
-	"C29": {"reset-hard", "checkout-force", "checkout", "reset-merge", "reset-keep", "add", "add-all", "remove", "move", "clean", "commit", "sparse"},
+	"C29": {"reset-hard", "checkout-force", "checkout-force-create", "checkout", "checkout-twin", "checkout-create", "reset-merge", "reset-keep", "add", "add-all", "remove", "move", "clean", "commit", "sparse"},
 }
 
 func init() { register("repo", repoCmd) }
@@ -676,7 +688,7 @@ func repoDiff(pre, post *repoObs, row *repoRow) string {
 	if pre.HeadRef != post.HeadRef || pre.HeadTree != post.HeadTree {
 		return "HEAD"
 	}
-	if pre.Master != post.Master || pre.Target != post.Target {
+	if pre.Master != post.Master || pre.Target != post.Target || pre.Feature != post.Feature {
 		return "branch"
 	}
 	for p, v := range pre.Idx {
@@ -849,8 +861,14 @@ func gitTwin(r *rep.Report, row *repoRow) {
 		args = []string{"reset", "-q", "--keep", "target"}
 	case "checkout-force":
 		args = []string{"checkout", "-q", "-f", "target"}
+	case "checkout-force-create":
+		args = []string{"checkout", "-q", "-f", "-b", "feature", "target"}
 	case "checkout":
 		args = []string{"checkout", "-q", "target"}
+	case "checkout-twin":
+		args = []string{"checkout", "-q", "twin"}
+	case "checkout-create":
+		args = []string{"checkout", "-q", "-b", "feature"}
 	case "add":
 		args = []string{"add", "--", row.Arg[0]}
 	case "add-all":
